@@ -688,7 +688,7 @@ func cfgNilEntries(ctx *Ctx, r *Report) {
 							decodes := false
 							ast.Inspect(fd.Body, func(k ast.Node) bool {
 								if c, ok := k.(*ast.CallExpr); ok {
-									if fn := callee(info, c); fn != nil && (fn.Name() == "Decode" || fn.Name() == "Unmarshal") {
+									if fn := callee(info, c); fn != nil && (fn.Name() == "Decode" || fn.Name() == "Unmarshal" || fn.Name() == "DecodeStrict") {
 										decodes = true
 									}
 								}
